@@ -1431,4 +1431,121 @@ theorem play_shape (c : Cfg) :
     · exact ⟨⟨by simp [sh, notPP], rfl, rfl, rfl⟩, rfl, fun h => h.of_eq rfl rfl, rfl⟩
     · exact ⟨⟨by simp [sh, notPP], rfl, rfl, rfl⟩, rfl, fun h => h.of_eq rfl rfl, rfl⟩
 
+theorem PcRelAt_congr (p : Pc) (c c' d : Cfg) (hst : c'.st = c.st) (h : PcRelAt p c d) : PcRelAt p c' d := by
+  cases p with
+  | notStarted => exact h
+  | done => exact h
+  | crashed e => exact h
+  | awaitPaused pf => exact h
+  | inUser b => simp only [PcRelAt] at h ⊢; rw [hst]; exact h
+  | awaitWaiting wf => simp only [PcRelAt] at h ⊢; rw [hst]; exact h
+
+theorem InStep.frame {c c' d : Cfg} (h : InStep c d) (f : PFrame c c') (hio : IntOk c')
+    (hi : isRunningPc c.pc = false → c'.interrupt = none)
+    (hp : isRunningPc c.pc = true → c'.paused = none) : InStep c' d := by
+  have hs : c'.stepping = c.stepping := (sh_fields f.1).1
+  refine ⟨h.core.left f, hio, ?_, ?_, ?_⟩
+  · rw [f.2.2.2]; exact PcRelAt_congr _ _ _ _ f.2.1 h.pc
+  · intro hr; rw [f.2.2.2] at hr; exact ⟨by rw [hs]; exact (h.run hr).1, hp hr⟩
+  · intro hr; rw [f.2.2.2] at hr; exact ⟨by rw [hs]; exact (h.idle hr).1, hi hr⟩
+
+theorem InStep.bframe {c c' d : Cfg} (h : InStep c d) (b : BFrame c c') : InStep c' d :=
+  h.frame b.1 (h.intOk.of_eq b.2.1 b.2.2.1) (fun hr => by rw [b.2.1]; exact (h.idle hr).2)
+    (fun hr => by rw [b.2.2.2]; exact (h.run hr).2)
+
+theorem QW.frame {c c' d : Cfg} (h : QW c d) (f : PFrame c c') (hi : c'.interrupt ≠ none) (hio : IntOk c')
+    (hp : c'.paused = none) : QW c' d := by
+  obtain ⟨g1, g2, g3, g4, g5, g6, g7, g8, g9, g10, g11, g12, g13, g14, g15⟩ := sh_fields f.1
+  obtain ⟨fn, wf, aw, wf', k, hst, hst', hw, hw', hpc, hpd⟩ := h.wait
+  exact ⟨f.1.trans h.sh, by rw [g15]; exact h.ckill, h.dint, h.dpaused,
+    ⟨fn, wf, aw, wf', k, by rw [f.2.1]; exact hst, hst', by rw [f.2.2.1]; exact hw, hw', by rw [f.2.2.2]; exact hpc, hpd⟩,
+    hio, hi, by rw [g1]; exact h.stepping, hp⟩
+
+theorem Lag.frame {P : Prog} {c c' d : Cfg} (h : Lag P c d) (f : PFrame c c') (hi : c'.interrupt = none) : Lag P c' d := by
+  obtain ⟨hap, d0, n, hn, hD, hd, hm⟩ := h
+  refine ⟨by rw [f.2.2.2]; exact hap, d0, n, hn, hD, hd, hm.core.left f, hi, ?_, ?_, hm.ncd⟩
+  · have := (sh_fields f.1).1; rw [this]; exact hm.stepping
+  · intro e he; rw [f.2.2.2] at he; exact hm.ncc e he
+
+theorem setAt_self_get {α} (l : List α) (i : Nat) (a b : α) (h : l[i]? = some b) : (setAt l i a)[i]? = some a := by
+  have hlt : i < l.length := (List.getElem?_eq_some_iff.mp h).1
+  simp [setAt, hlt]
+
+theorem QW.bframe {c c' d : Cfg} (h : QW c d) (b : BFrame c c') : QW c' d :=
+  h.frame b.1 (by rw [b.2.1]; exact h.intSome) (h.intOk.of_eq b.2.1 b.2.2.1) (by rw [b.2.2.2]; exact h.paused)
+
+theorem Lag.bframe {P : Prog} {c c' d : Cfg} (h : Lag P c d) (b : BFrame c c') : Lag P c' d :=
+  h.frame b.1 (by rw [b.2.1]; exact h.2.choose_spec.choose_spec.2.2.2.int)
+
+/-- a pause request keeps the simulation -/
+theorem pause_sim (P : Prog) (c d : Cfg) (h : Sim P c d) : Sim P (pause c).1 d := by
+  rcases h with h | h | h
+  · -- in step
+    rcases pause_shape c h.core.ckill with b | ⟨hs, he⟩ | ⟨hs, hpn, b⟩
+    · exact Or.inl (h.bframe b)
+    · rw [he]
+      refine Or.inl (h.frame (doPauseHooks_pf c) (h.intOk.of_eq rfl rfl) (fun hr => (h.idle hr).2) ?_)
+      intro hr; have := (h.run hr).1; rw [hs] at this; cases this
+    · obtain ⟨r1, r2, r3, r4, r5, r6, r7⟩ := requestInterrupt_props c
+      have hrun : isRunningPc c.pc = true := by
+        cases hr : isRunningPc c.pc with
+        | true => rfl
+        | false => have := (h.idle hr).1; rw [hs] at this; cases this
+      have hnotidle : isRunningPc c.pc = false → (requestInterrupt c .pause).interrupt = none := by
+        intro hf; rw [hrun] at hf; cases hf
+      rcases r7 with hw | ⟨fn, wf, wk, aw, hst, hpend, hw⟩
+      · exact Or.inl ((h.frame ⟨r1, r2, hw, r3⟩ r5 hnotidle (fun _ => by rw [r4]; exact hpn)).bframe b)
+      · -- the pending wait is interrupted
+        have hpcr := h.pc
+        cases hpc : c.pc with
+        | notStarted => rw [hpc] at hrun; cases hrun
+        | done => rw [hpc] at hrun; cases hrun
+        | crashed e => rw [hpc] at hrun; cases hrun
+        | awaitPaused pf => rw [hpc] at hrun; cases hrun
+        | inUser b' =>
+          rw [hpc] at hpcr
+          obtain ⟨_, fn', a', k', hst2⟩ := hpcr
+          rw [hst] at hst2; cases hst2
+        | awaitWaiting wf0 =>
+          rw [hpc] at hpcr
+          obtain ⟨fn0, wk0, aw0, wf', hst0, hst', hpd⟩ := hpcr
+          rw [hst] at hst0; cases hst0
+          obtain ⟨wf2, w, hwk, hst2, hcw, hdw, hni⟩ := h.core.st.waiting_inv hst
+          rw [hst'] at hst2; cases hst2
+          subst hwk
+          rw [hpend] at hcw; cases hcw
+          obtain ⟨g1, g2, g3, g4, g5, g6, g7, g8, g9, g10, g11, g12, g13, g14, g15⟩ := sh_fields r1
+          have hq : QW (requestInterrupt c .pause) d :=
+            ⟨r1.trans h.core.sh, by rw [g15]; exact h.core.ckill, h.core.dint, h.core.dpaused,
+              ⟨fn, wf, aw, wf', c.nextCookie, by rw [r2]; exact hst, hst', by rw [hw]; exact setAt_self_get _ _ _ _ hpend,
+                hdw, by rw [r3]; exact hpc, hpd⟩,
+              r5, r6, by rw [g1]; exact hs, by rw [r4]; exact hpn⟩
+          exact Or.inr (Or.inl (hq.bframe b))
+  · -- interrupted wait
+    rcases pause_shape c h.ckill with b | ⟨hs, he⟩ | ⟨hs, hpn, b⟩
+    · exact Or.inr (Or.inl (h.bframe b))
+    · rw [h.stepping] at hs; cases hs
+    · obtain ⟨r1, r2, r3, r4, r5, r6, r7⟩ := requestInterrupt_props c
+      obtain ⟨fn, wf, aw, wf', k, hst, hst', hw, hw', hpc, hpd⟩ := h.wait
+      have hwfs : (requestInterrupt c .pause).wfs = c.wfs := by
+        rcases r7 with hw2 | ⟨fn2, wf2, wk2, aw2, hst2, hpend, _⟩
+        · exact hw2
+        · rw [hst] at hst2; cases hst2
+          rw [hw] at hpend; cases hpend
+      exact Or.inr (Or.inl ((h.frame ⟨r1, r2, hwfs, r3⟩ r6 r5 (by rw [r4]; exact hpn)).bframe b))
+  · -- lagging
+    have hm := h.2.choose_spec.choose_spec.2.2.2
+    rcases pause_shape c hm.core.ckill with b | ⟨hs, he⟩ | ⟨hs, hpn, b⟩
+    · exact Or.inr (Or.inr (h.bframe b))
+    · rw [he]; exact Or.inr (Or.inr (h.frame (doPauseHooks_pf c) hm.int))
+    · rw [hm.stepping] at hs; cases hs
+
+/-- a play request keeps the simulation -/
+theorem play_sim (P : Prog) (c d : Cfg) (h : Sim P c d) : Sim P (play c).1 d := by
+  obtain ⟨f, hi, hio, hp⟩ := play_shape c
+  rcases h with h | h | h
+  · exact Or.inl (h.frame f (hio h.intOk) (fun hr => by rw [hi]; exact (h.idle hr).2) (fun _ => hp))
+  · exact Or.inr (Or.inl (h.frame f (by rw [hi]; exact h.intSome) (hio h.intOk) hp))
+  · exact Or.inr (Or.inr (h.frame f (by rw [hi]; exact h.2.choose_spec.choose_spec.2.2.2.int)))
+
 end PMF
